@@ -30,6 +30,7 @@ class Ctx:
         self.known = []
         self.coverage = {}
         self.assumptions = []
+        self.src_changes = []
 
     def cleanup(self):
         shutil.rmtree(self.work, ignore_errors=True)
@@ -162,7 +163,7 @@ def write_evidence(ctx, level, coverage, assumptions):
         'tier': ctx.tier,
         'seed': ctx.seed,
         'level': level,
-        'coverage': coverage,
+        'coverage': dict(coverage, source_watch={'changed_since_recorded_tree': ctx.src_changes[:40], 'sampling_redirected': bool(ctx.src_changes)}),
         'assumptions': assumptions,
         'wall_s': round(time.time() - ctx.t0, 2),
         'violations': len(ctx.violations),
